@@ -56,6 +56,11 @@ CHECKS = {
    note="Trusted: the explicit reference renderer (qmodel.rs / dml.rs), written from SQLite's syntax diagrams; states whose REFERENCE the engine rejects are out of domain (counted by reason; every op class must occur in executed states or the run is a machinery failure). Nested statements come from a representative pool of 4. Two genuine defects repaired by fix: commits.",
    technique=TECH+"BFS over builder-call histories with state deduplication, oracle = differential execution on a real SQLite engine against a reference rendering",
    ref="3.7"),
+ "C09": dict(
+   text="Explicit-state BFS over builder-call histories restricted to the portable feature subset (SELECT depth 4 / 5: columns, expressions, functions incl. IFNULL/COALESCE, GREATEST/LEAST, CHAR_LENGTH, CASE, custom templates, window functions, DISTINCT, FROM table/alias/subquery/VALUES, joins, WHERE groups, IN-subquery / EXISTS / scalar subquery, GROUP BY, HAVING, UNION/INTERSECT/EXCEPT chains, ORDER BY with NULLS FIRST/LAST and FIELD order, LIMIT/OFFSET, CTE; INSERT VALUES/SELECT, UPDATE SET/WHERE, DELETE WHERE depth 4 / 5). In every state the MySQL and Postgres renderings (inline and bound) are transliterated token by token through the reference lexers into SQLite spelling - identifier quotes, placeholder style, literal syntax, VALUES ROW, set-operation parentheses (regrouped by the SQL-standard INTERSECT precedence that MySQL 8 and PostgreSQL implement) and the documented function-name substitutions, nothing else - and all three are executed on identical SQLite databases; result rows (ordered under ORDER BY) and final table contents must be pairwise identical.",
+   note="Trusted: the transliterator (token-level, 150 lines) and the reference lexers; semantics of the MySQL / Postgres text are those of SQLite after transliteration (LIKE case rules, type affinity); states whose explicit reference rendering SQLite rejects, and MySQL's NULLS emulation inside compound selects (not executable on SQLite), are out of domain and counted. One genuine defect is a known finding (INTERSECT precedence, 2 keys).",
+   technique=TECH+"BFS over builder-call histories, oracle = pairwise differential execution of the three transliterated renderings on a real SQLite engine",
+   ref="3.9"),
  "C10": dict(
    text="Explicit-state BFS over ALL histories of a 27-operation INSERT alphabet (columns / values / values_panic / values_from_panic / select_from / or_default_values*, column counts 0..3, row lengths 0..4) up to depth 6 (quick) / 8 (thorough) on the real InsertStatement, in lock-step with a plain-list reference model. Per step: Result / panic vs the contract, error counts, statement unchanged after a rejection. Per state: rendering on 3 backends x {to_string, build} parsed back by an independent parser and compared with the model (rectangularity, call order, default-values form).",
    note="Trusted: the reference model of the documented contract (lists), the reference lexer and the 150-line INSERT parser. One genuine defect is a known finding (columns() after a source was accepted).",
